@@ -12,8 +12,8 @@ from c09 import canon_obs, root_cls, sub_patterns, CannotJudge
 PROP = "C04"
 META = {
  "engine": "P-pattern-algebra",
- "text": "Coq theorems (Props/C04.v, closed under the global context) prove on the executable model of the pattern classes (Pat/Step.v: __init__, __next__, reset() incl. Pattern.reset's walk over vars(self)): for the reset fragment rpat (constants, sequences of scalars, series, ranges, geometric series, impulses, the 15 operators, &, abs, int, references, stutter, counter, pad, pad-to-multiple, skip-if, loop, ping-pong, reverse, subsequence, collapse, no-repeats, changed, diff, wrap, reset-on-trigger over a counter-state class, nested to any depth, parameters scalars or patterns of the fragment; proved closed under next(): C04_fragment_closed) reset() after ANY number of next() calls - including calls that raised StopIteration - yields exactly the state reset() yields on the untouched object, which for a newly constructed object is the object itself; hence the outputs after reset() are those of a new instance, repeated resets change nothing, and all() leaves the object rewound. The model is tied to the repository on every run by scripts next^k; reset; next^n; reset; next^n; all(m); next^n with k at 0, 1, block boundaries, exhaustion and beyond, on random expressions over every modelled class, compared inside Coq; an implementation-only oracle compares every post-reset output with a freshly constructed instance.",
- "note": "Open (C04_reset_erases_step_leaf_partial): PReset over nested patterns, PRound PIndexOf PArrayIndex PDict PDictKey PConcatenate and list-/tuple-/dict-valued parameters are covered by the correspondence and the oracle, not by the theorem. Trusted: Coq kernel + VM; the harness. Stochastic classes are the business of C11 (reseeding); here they are outside the model. Deterministic classes outside the model (PEuclidean PArpeggiator PNormalise PTri PSaw PPermut) are judged by the oracle only. Patterns stored inside tuples are not reached by Pattern.reset (the model transcribes that); the generator puts tuples of scalars only.",
+ "text": "Coq theorems (Props/C04.v, closed under the global context) prove on the executable model of the pattern classes (Pat/Step.v: __init__, __next__, reset() incl. Pattern.reset's walk over vars(self)): for the reset fragment rpat (constants, sequences of scalars, series, ranges, geometric series, impulses, the 15 operators, &, abs, int, references, stutter, counter, pad, pad-to-multiple, skip-if, loop, ping-pong, reverse, subsequence, collapse, no-repeats, changed, diff, wrap, reset-on-trigger over a counter-state class, nested to any depth, parameters scalars or patterns of the fragment; proved closed under next(): C04_fragment_closed) reset() after ANY number of next() calls - including calls that raised StopIteration - yields exactly the state reset() yields on the untouched object, which for a newly constructed object is the object itself; hence the outputs after reset() are those of a new instance, repeated resets change nothing, and all() leaves the object rewound. The model is tied to the repository on every run by scripts next^k; reset; next^n; reset; next^n; all(m); next^n with k at 0, 1, block boundaries, exhaustion and beyond, on random expressions over every modelled class, compared inside Coq; an implementation-only oracle compares every post-reset output with a freshly constructed instance. Seedable and configurable classes (Pat/Seeded.v: constructors that draw, seed() overrides, __next__ that resets itself, configuration methods called at any time; generator as data): for every class meeting the contract `rewinds` - proved for PArpeggiator RANDOM, PRandomImpulseSequence with every(), all machines of Pat/Chance.v - and every history over next/reset/seed/configuration calls, reset() leaves exactly the newly constructed instance with the seed in force and the configuration calls made (C04_reset_is_fresh_configured_instance), and a freshly seeded instance consumed straight away is what reset() reproduces and what any other fresh instance with that seed is (C04_fresh_seeded_is_what_reset_reproduces, C04_seeded_instances_agree); PRef.set_pattern starts a new history (C04_reset_after_set_pattern). Tied to the repository by the seeded/configured stream: every PStochasticPattern subclass of the live package, seeded, configured through every / set_pattern / item assignment in the set-up and in mid-history, alone and nested, every clean segment compared with a newly constructed identically seeded and configured instance, recorded draws replayed through the model inside Coq.",
+ "note": "Open (C04_reset_erases_step_leaf_partial): PReset over nested patterns, PRound PIndexOf PArrayIndex PDict PDictKey PConcatenate and list-/tuple-/dict-valued parameters are covered by the correspondence and the oracle, not by the theorem. Trusted: Coq kernel + VM; the harness. Stochastic classes: ranges, isolation and the generator contract are C11; their reset()/seed() is in Pat/Seeded.v (PArpeggiator RANDOM, PRandomImpulseSequence, the machines of Pat/Chance.v by embedding), the other seedable classes (PRandomExponential, regular PCoin/PSkip, pattern-valued parameters) by the oracle only. Configuration methods that draw (PMarkov.randomize) and PArpeggiator.notes= are not covered. Deterministic classes outside the model (PEuclidean PArpeggiator PNormalise PTri PSaw PPermut) are judged by the oracle only. Patterns stored inside tuples are not reached by Pattern.reset (the model transcribes that); the generator puts tuples of scalars only.",
 }
 
 REFN = 26
@@ -189,14 +189,464 @@ def check(run):
             "case": {"expr": to_source(small.expr), "expr_json": to_json(small.expr), "ops": [list(o) for o in small.ops]},
             "observed": small.obs_pretty(), "model": model_trace(run, small),
             "python": replay_snippet(small.expr, small.ops)}, found_input=False)
+    check_seeded(run)
     if cases:
         run.sample({"expr": to_source(cases[0].expr), "ops": [list(o) for o in cases[0].ops], "observed": cases[0].obs_pretty()})
     run.cov["rule"] = ("one case = one expression + one script next^k; reset; next^n; [reset; next^n;] [nextn; all; next^n]; "
                        "non-trivial = k > 0 and the un-reset continuation differs from the start of the sequence (a no-op reset would be seen)")
 
 
+# ==========================================================================================================
+# Seeded / configured stream: "a newly constructed, identically SEEDED instance" - every PStochasticPattern
+# subclass of the live package (fail closed), seeded through .seed(s), configured AFTER construction through
+# its public configuration methods (PRandomImpulseSequence.every, PRef.set_pattern, PDict item assignment),
+# also re-seeded / re-configured in the middle of a history, alone and nested inside deterministic patterns.
+# Oracle (from the property text): every "clean" segment of outputs - from construction + set-up, or after a
+# reset() / all() - equals the outputs of a NEWLY CONSTRUCTED instance that received the seed in force and the
+# configuration calls made so far (so: fresh-seeded output = output after reset = output of another fresh
+# instance).  An unseeded stochastic pattern is compared with its own earlier clean segments.
+# Model (Pat/Seeded.v, compared inside Coq with the recorded draws replayed): PArpeggiator(RANDOM),
+# PRandomImpulseSequence with every(); PRef.set_pattern through Pat/Step.v (the re-configuration starts a new history).
+# ==========================================================================================================
+S_REFN = 40
+ARP_TYPES = ["UP", "DOWN", "CONVERGE", "DIVERGE", "RANDOM", "UPDOWN", "DOWNUP", "BUILD", "BREAK", "ROOTBOUNCE"]
+EVERY_ACTIONS = [("'generate'", "AGenerate"), ("'explore'", "AExplore"), ("'reset'", "AReset"), ("noop", "ANoop"), ("None", "ANone")]
+
+
+def _sints(r, lo, hi, vlo=0, vhi=24):
+    return [r.randint(vlo, vhi) for _ in range(r.randint(lo, hi))]
+
+
+def _sseq(r, lo=0, hi=6):
+    return "iso.PSequence(%r, 1)" % _sints(r, lo, hi)
+
+
+def r_white(r):
+    if r.random() < 0.3:
+        return {"inner": "iso.PWhite(%s, %d, %d)" % (r.choice(["iso.PSequence([0, 10, 5])", "iso.PSeries(0, 1)"]), r.randint(20, 40), r.choice([0, 5]))}
+    a = r.randint(0, 60)
+    fl = r.random() < 0.4
+    return {"inner": "iso.PWhite(%r, %r%s)" % (float(a) if fl else a, float(a + r.randint(1, 60)) if fl else a + r.randint(1, 60),
+                                               ", %d" % r.randint(1, 7) if r.random() < 0.5 else "")}
+
+
+def r_arp(r):
+    t = r.choice(ARP_TYPES + ["RANDOM"] * 8)
+    notes = sorted(set(_sints(r, 3 if t in ARP_TYPES[7:] else 1, 7)))
+    while len(notes) < (3 if t in ARP_TYPES[7:] else 1):
+        notes.append(notes[-1] + 1)
+    loop = r.random() < 0.4
+    out = {"inner": "iso.PArpeggiator(%r, iso.PArpeggiator.%s, %r)" % (notes, t, loop)}
+    if t == "RANDOM":
+        out["model"] = ("arp", notes, loop)
+    return out
+
+
+def r_impulse(r):
+    prob = r.choice([0.25, 0.5, 0.75, 0.3, 0.9, 0.0, 1.0])
+    length = r.choice([1, 2, 3, 4, 5, 8, 8, 0])
+    return {"inner": "iso.PRandomImpulseSequence(%r, %d)" % (prob, length), "model": ("imp", prob, length),
+            "config": lambda r: every_call(r)}
+
+
+def every_call(r):
+    n = r.choice([0, 1, 2, 3, 4, 5, 8, -1])
+    a = r.choice(EVERY_ACTIONS[:3] * 3 + EVERY_ACTIONS[3:])
+    return ["call", "every", [str(n), a[0]]]
+
+
+def r_markov(r):
+    if r.random() < 0.5:
+        return {"inner": "iso.PMarkov(%r)" % (_sints(r, 3, 7, 1, 4) + [1])}
+    n = r.randint(1, 4)
+    d = {i: sorted(set([i + 1] + [r.randint(i + 1, n) for _ in range(r.randint(0, 2))])) for i in range(n)}
+    d[n] = [] if r.random() < 0.6 else [0]
+    return {"inner": "iso.PMarkov(%r)" % d}
+
+
+SEEDED_RECIPES = {
+    "PWhite": r_white,
+    "PBrown": lambda r: {"inner": "iso.PBrown(%d, %r, %d, %d)" % (r.randint(40, 60), r.choice([1, 2, 3, 0.5, 1.5]), 30, 90)},
+    "PCoin": lambda r: {"inner": "iso.PCoin(%r%s)" % (r.choice([0.2, 0.5, 0.8, 0.35]), ", True" if r.random() < 0.3 else "")},
+    "PRandomWalk": lambda r: {"inner": "iso.PRandomWalk(%r, %d, %d%s)" % (_sints(r, 2, 6), 1, r.randint(1, 3), ", False" if r.random() < 0.2 else "")},
+    "PChoice": lambda r: (lambda v: {"inner": "iso.PChoice(%r%s)" % (v, ", %r" % [r.randint(1, 4) for _ in v] if r.random() < 0.4 else "")})(_sints(r, 1, 5)),
+    "PSample": lambda r: (lambda v: {"inner": "iso.PSample(%r, %d)" % (v, r.randint(1, len(v)))})(_sints(r, 2, 5)),
+    "PShuffle": lambda r: {"inner": "iso.PShuffle(%r%s)" % (_sints(r, 0, 5), ", %d" % r.randint(0, 3) if r.random() < 0.7 else "")},
+    "PShuffleInput": lambda r: {"inner": "iso.PShuffleInput(%s, %d)" % (_sseq(r, 0, 8), r.randint(1, 4))},
+    "PSkip": lambda r: {"inner": "iso.PSkip(%s, %r%s)" % (_sseq(r, 0, 7) if r.random() < 0.7 else "iso.PSeries(0, 1)", r.choice([0.0, 0.3, 0.5, 0.8, 1.0]),
+                                                        ", True" if r.random() < 0.3 else "")},
+    "PFlipFlop": lambda r: {"inner": "iso.PFlipFlop(%d, %r, %r)" % (r.randint(0, 1), r.choice([0.2, 0.5, 0.9]), r.choice([0.2, 0.5, 0.9]))},
+    "PSwitchOne": lambda r: {"inner": "iso.PSwitchOne(%s, %d)" % (_sseq(r, 4, 8), r.randint(2, 4))},
+    "PRandomExponential": lambda r: {"inner": "iso.PRandomExponential(1, %d)" % r.randint(5, 100)},
+    "PRandomImpulseSequence": r_impulse,
+    "PMarkov": r_markov,
+    "PArpeggiator": r_arp,
+    "PStochasticPattern": lambda r: {"inner": "iso.PStochasticPattern()"},
+}
+# deterministic classes with a public configuration method
+WRAPS = [None, None, None, "(X + 1)", "iso.PAbs(X)", "iso.PSequence([iso.PAbs(X), iso.PSeries(100, 1)])", "iso.PStutter(X, 2)",
+         "iso.PDict({'a': X, 'b': iso.PSeries(0, 1)})", "iso.PConcatenate([iso.PSubsequence(X, 0, 3), iso.PSeries(0, 1, 2)])",
+         "iso.PSequence([X, 7], 3)", "iso.PRef(X)", "iso.PPad(iso.PSubsequence(X, 1, 4), 6)"]
+
+
+def r_ref(r, gen):
+    old = gen.gen(r.randint(0, 2), r.random() < 0.5)
+    new = gen.gen(r.randint(0, 2), r.random() < 0.6)
+    return {"inner": "iso.PRef(%s)" % to_source(old), "config": lambda r2: ["call", "set_pattern", [to_source(new)]], "force_config": True,
+            "model": ("ref", new)}
+
+
+def r_dict(r, gen):
+    a, b, c = (gen.gen(r.randint(0, 1), r.random() < 0.5) for _ in range(3))
+    return {"inner": "iso.PDict({'a': %s, 'b': %s})" % (to_source(a), to_source(b)), "force_config": True,
+            "config": lambda r2: ["call", "__setitem__", [repr(r.choice(["a", "b", "c"])), to_source(c)]]}
+
+
+def seeded_script(rng, spec, stochastic):
+    """set-up calls + script; returns (setup, ops)"""
+    setup = []
+    seeded = stochastic and rng.random() < 0.85
+    if seeded:
+        setup.append(["call", "seed", [str(rng.randint(0, 9999))]])
+    if spec.get("config") and (spec.get("force_config") or rng.random() < 0.8):
+        setup.append(spec["config"](rng))
+        if spec.get("force_config") and rng.random() < 0.5:          # configured in the middle of the history instead
+            setup.pop()
+    if rng.random() < 0.5:
+        setup.reverse()
+    ops = []
+    k = rng.choice([0, 1, 1, 2, 3, 5, 8, rng.randint(0, 14)])
+    n = rng.randint(3, 12)
+    mid = []
+    if spec.get("config") and (rng.random() < 0.35 or not any(o[1] != "seed" for o in setup) and spec.get("force_config")):
+        mid.append(spec["config"](rng))
+    if stochastic and rng.random() < 0.2:
+        mid.append(["call", "seed", [str(rng.randint(0, 9999))]])
+    pre = ["next"] * k
+    for m in mid:
+        pre.insert(rng.randint(0, len(pre)), m)
+    ops += pre + [["reset"]] + ["next"] * n
+    x = rng.random()
+    if x < 0.3:
+        ops += [["reset"]] + ["next"] * rng.randint(2, 8)
+    elif x < 0.45:
+        ops += ["next"] * rng.randint(0, 3) + [["reset"], ["reset"]] + ["next"] * rng.randint(2, 6)
+    elif x < 0.6:
+        ops += [["all", rng.randint(0, 9)]] + ["next"] * rng.randint(2, 6)
+    return setup, ops
+
+
+def seeded_segments(case):
+    """clean segments of a case: [(key, [observations])]; key = (seed call | None, tuple of configuration calls so far).
+    A segment starts at construction + set-up or after reset()/all() and ends at the next call that is not next()/all()."""
+    seed, cfgs = None, []
+    for op in case["setup"]:
+        if op[1] == "seed":
+            seed = op
+        else:
+            cfgs.append(op)
+    out, cur, clean = [], [], True
+    key = lambda: (json.dumps(seed), json.dumps(cfgs))
+    ev = case["events"]
+    for op, o in zip(case["ops"], ev):
+        if op == "next":
+            if clean:
+                cur.append(o)
+        elif op[0] == "all":
+            ok = isinstance(o, dict) and "y" in o and isinstance(o["y"], dict) and "l" in o["y"]
+            if clean and ok:
+                vals = o["y"]["l"]
+                cur += [{"y": v} for v in vals]
+                if len(vals) < op[1]:
+                    cur.append("stop")
+            if clean:
+                out.append((key(), cur, seed, list(cfgs)))
+            # an exception inside all(): the object was not reset; nothing more is judged until the next reset()
+            cur, clean = [], ok
+        elif op[0] == "reset":
+            if clean:
+                out.append((key(), cur, seed, list(cfgs)))
+            cur, clean = [], (o == {"y": None})
+        else:
+            if clean:
+                out.append((key(), cur, seed, list(cfgs)))
+            cur, clean = [], False
+            if op[1] == "seed":
+                seed = op
+            else:
+                cfgs.append(op)
+    if clean:
+        out.append((key(), cur, seed, list(cfgs)))
+    return out
+
+
+def seeded_snippet(case, upto=None):
+    lines = ["import isobar as iso", "def noop(): return None", "X = %s" % case["inner"]]
+    for op in case["setup"]:
+        lines.append("X.%s(%s)" % (op[1], ", ".join(op[2])))
+    lines.append("p = %s" % (case["wrap"] or "X"))
+    for op in case["ops"][:upto]:
+        if op == "next":
+            lines.append("print(next(p))")
+        elif op[0] == "reset":
+            lines.append("p.reset()")
+        elif op[0] == "all":
+            lines.append("print(p.all(%d))" % op[1])
+        else:
+            lines.append("X.%s(%s)" % (op[1], ", ".join(op[2])))
+    return "\n".join(lines)
+
+
+def fresh_snippet(case, seed, cfgs, n):
+    lines = ["# the newly constructed, identically seeded and configured instance", "Y = %s" % case["inner"]]
+    for op in ([seed] if seed else []) + cfgs:
+        lines.append("Y.%s(%s)" % (op[1], ", ".join(op[2])))
+    lines += ["q = %s" % (case["wrap"] or "X").replace("X", "Y"), "print(q.nextn(%d))" % n]
+    return "\n".join(lines)
+
+
+def seeded_judge(case, out):
+    """None | violation document pieces.  Raises CannotJudge."""
+    if out.get("status"):
+        raise CannotJudge("impl-" + out["status"])
+    if out["build"] != {"y": None}:
+        raise CannotJudge("constructor / set-up raised")
+    case = dict(case, events=out["events"])
+    segs = seeded_segments(case)
+    refmap = {json.dumps(r["setup"]): obs for r, obs in zip(case["refs"], out["refs"])}
+    first = {}
+    for si, (key, obs, seed, cfgs) in enumerate(segs):
+        use_fresh = (not case["stochastic"]) or seed is not None
+        if use_fresh:
+            robs = refmap.get(json.dumps(([seed] if seed else []) + cfgs))
+            if robs is None or robs[0] != {"y": None}:
+                continue
+            ref, what = robs[1:], "a newly constructed instance with the same seed and configuration calls"
+        else:
+            if key not in first:
+                first[key] = (si, obs)
+                continue
+            ref, what = first[key][1], "its own outputs after construction / an earlier reset (unseeded: the seed drawn by the constructor is kept)"
+        for i, o in enumerate(obs):
+            if i >= len(ref):
+                break
+            if canon_obs(o) != canon_obs(ref[i]):
+                return {"segment": si, "index": i, "expected": canon_obs(ref[i]), "observed": canon_obs(o), "what": what,
+                        "segment_outputs": [pretty_obs(x) for x in obs], "reference_outputs": [pretty_obs(x) for x in ref[:len(obs) + 2]],
+                        "seed": seed, "cfgs": cfgs, "after_reset": si > 0}
+    return None
+
+
+def kres_term(o):
+    if o == "stop":
+        return "Chance.Stop"
+    if isinstance(o, dict) and "r" in o:
+        return "Fail"
+    v = from_json(o["y"])
+    if v is None:
+        return "(Out ONone)"
+    if isinstance(v, int) and not isinstance(v, bool):
+        return "(Out (OZ %s))" % zlit(v)
+    raise Unrepresentable("value %r" % (v,))
+
+
+SEEDED_HEADER = """From Isobar Require Import Base.Prelude Pat.Chance Pat.Seeded.
+From Coq Require Import QArith.
+Open Scope Z_scope.
+"""
+
+
+def seeded_term(case, out):
+    """Coq boolean: the model of Pat/Seeded.v, fed the recorded draws, produces the observed outputs and asks the generator
+    for exactly the recorded draws in every epoch"""
+    kind = case["model"]
+    eps_impl, opened = out["epochs"], out["opened"]
+    allops = case["setup"] + case["ops"]
+    kops, exp = [], []
+    groups = [[0]]                       # impl epochs belonging to model epoch e
+    ev = iter(out["events"])
+    for j, op in enumerate(allops):
+        o = next(ev) if j >= len(case["setup"]) else None
+        b, a = opened[j]
+        if op == "next":
+            kops.append("KNext"); exp.append(kres_term(o))
+            groups[-1] += list(range(b, a))                       # reset() from inside __next__
+        elif op[0] == "reset":
+            if a != b + 1:
+                raise Unrepresentable("reset() seeded the generator %d times" % (a - b))
+            groups.append([b]); kops += ["(KSeed %d)" % (len(groups) - 1), "KReset"]
+        elif op[1] == "seed":
+            if a != b + 1:
+                raise Unrepresentable("seed() seeded the generator %d times" % (a - b))
+            groups.append([b]); kops.append("(KSeed %d)" % (len(groups) - 1))
+        elif op[1] == "every":
+            act = dict(EVERY_ACTIONS)[op[2][1]]
+            kops.append("(KConfig (%s, %s))" % (zlit(int(op[2][0])), act))
+        else:
+            raise Unrepresentable("operation %r" % (op,))
+    draws, reqs, strict = [], [], []
+    for g in groups:
+        best = max(g, key=lambda e: len(eps_impl[e]))
+        draws.append(zlist([k for _, k in eps_impl[best]])); reqs.append(zlist([q for q, _ in eps_impl[best]]))
+        strict.append(blit(len(g) == 1))
+    if kind[0] == "arp":
+        cls = "(arp_random replay rp_below (rp_seed eps) %s %s)" % (zlist(kind[1]), blit(kind[2]))
+        ops = "(%s : list (kop unit))" % lst(kops)
+    else:
+        fr = Fraction(kind[1])
+        cls = "(impulse_seq replay rp_unit rp_below (rp_seed eps) (%s # %d) %s)" % (zlit(fr.numerator), fr.denominator, zlit(kind[2]))
+        ops = "(%s : list (kop (Z * eaction)))" % lst(kops)
+    return "(let eps := %s in check_kscript %s eps %s %s %s %s)" % (lst(draws), cls, lst(reqs), lst(strict), ops, lst(exp))
+
+
+def check_seeded(run):
+    rng = run.rng
+    thorough = run.tier == "thorough"
+    live = {c["name"]: c for c in run.impl("c04_impl", {"enumerate": True})["classes"]}
+    stoch = sorted(n for n, c in live.items() if c["stochastic"])
+    for n in stoch:
+        if n not in SEEDED_RECIPES:
+            run.violation({"kind": "seedable-class-list", "class": n}, {
+                "broken": "coverage of 'all library pattern classes with ... seedable behaviour': the PStochasticPattern subclass %s of "
+                          "isobar.pattern has no recipe in harness/c04.py SEEDED_RECIPES" % n,
+                "python": "import isobar as iso; print(iso.%s)" % n}, found_input=False)
+    for n in sorted(SEEDED_RECIPES):
+        if n not in live:
+            run.violation({"kind": "seedable-class-list", "class": n}, {
+                "broken": "class %s named in harness/c04.py SEEDED_RECIPES no longer exists in isobar.pattern" % n}, found_input=False)
+    gen = Gen(rng, run)
+    cases = []
+    per = 120 if thorough else 14
+    plan = [(n, SEEDED_RECIPES[n], True) for n in sorted(SEEDED_RECIPES) if n in live for _ in range(per)]
+    plan += [("PRandomImpulseSequence", r_impulse, True)] * (per * 3) + [("PArpeggiator", r_arp, True)] * (per * 2)
+    plan += [("PRef", lambda r: r_ref(r, gen), False)] * (per * 2) + [("PDict", lambda r: r_dict(r, gen), False)] * per
+    for cls, recipe, stochastic in plan:
+        spec = recipe(rng)
+        setup, ops = seeded_script(rng, spec, stochastic)
+        wrap = rng.choice(WRAPS[3:]) if rng.random() < 0.42 else None
+        case = {"cls": cls, "inner": spec["inner"], "wrap": wrap, "setup": setup, "ops": ops, "stochastic": stochastic,
+                "model": spec.get("model"), "record": False}
+        # reference runs: one per (seed in force, configuration calls so far) that a clean segment can have
+        refs, seen = [], set()
+        for key, _, seed, cfgs in seeded_segments(dict(case, events=[{"y": None}] * len(ops))):
+            if stochastic and seed is None:
+                continue
+            su = ([seed] if seed else []) + cfgs
+            if json.dumps(su) not in seen:
+                seen.add(json.dumps(su)); refs.append({"setup": su, "n": S_REFN})
+        case["refs"] = refs
+        if case["model"] and case["model"][0] in ("arp", "imp") and wrap is None and setup and setup[0][1] == "seed" \
+                and not any(isinstance(o, list) and o[0] == "all" for o in ops):
+            case["record"] = True
+        cases.append(case)
+    shards = 12
+    parts = [cases[i::shards] for i in range(shards) if cases[i::shards]]
+    payloads = [{"cases": [{k: c[k] for k in ("inner", "wrap", "setup", "ops", "refs", "record")} for c in part]} for part in parts]
+    outs = {}
+    for part, res in zip(parts, run.impl_parallel("c04_impl", payloads)):
+        for c, r in zip(part, res["cases"]):
+            outs[id(c)] = r
+    reported, devs = set(), []
+    terms, owners = [], []
+    ref_cases = []
+    for c in cases:
+        out = outs[id(c)]
+        run.count(); run.dist("stream.seeded"); run.dist("seeded." + c["cls"])
+        run.dist("seeded.nested" if c["wrap"] else "seeded.alone")
+        run.dist("seeded.setup." + ("+".join(o[1] for o in c["setup"]) or "none"))
+        if any(isinstance(o, list) and o[0] == "call" for o in c["ops"]):
+            run.dist("seeded.reconfigured-mid-history")
+        try:
+            dev = seeded_judge(c, out)
+        except CannotJudge as e:
+            run.discard("seeded: " + str(e)); continue
+        run.cov["oracle_evaluations"] += len(out["events"]) + sum(len(r) for r in out["refs"])
+        k = next((i for i, o in enumerate(c["ops"]) if o != "next"), 0)
+        if k > 0:
+            run.nontrivial("seeded " + c["inner"] + repr(c["setup"]) + repr(c["ops"]) + repr(c["wrap"]))
+        if dev is not None:
+            devs.append((bool(c["wrap"]), len(c["ops"]) + len(c["inner"]), len(devs), c, out, dev))
+            continue
+        if c["record"] and out.get("epochs") is not None:
+            try:
+                terms.append(seeded_term(c, out)); owners.append((c, out))
+            except Unrepresentable as e:
+                run.discard("seeded model: " + str(e).split(" ")[0])
+        elif c["model"] and c["model"][0] == "ref" and c["wrap"] is None:
+            # PRef.set_pattern(q): from the call on, the object is PRef(q) with q new (Pat/Step.v; C04_reset_after_set_pattern)
+            allops = c["setup"] + c["ops"]
+            j = max(i for i, o in enumerate(allops) if isinstance(o, list) and o[0] == "call")
+            tail = allops[j + 1:]
+            obs = out["events"][max(0, j + 1 - len(c["setup"])):]
+            pops = [("next", 0) if o == "next" else ("reset", 0) if o[0] == "reset" else ("all", 0, o[1]) for o in tail]
+            mc = Case(E("PRef", c["model"][1]), pops, "set_pattern")
+            mc.obs = [{"y": None}] + obs
+            ref_cases.append(mc)
+    # smallest failing case of every (kind, class) first: alone before nested, short scripts before long ones
+    for _, _, _, c, out, dev in sorted(devs, key=lambda t: t[:3]):
+        kind = "fresh-seeded" if not dev["after_reset"] else ("configured-reset" if dev["cfgs"] else "seeded-reset")
+        sig = {"kind": kind, "class": c["cls"], "nested": bool(c["wrap"])}
+        key = json.dumps({"kind": kind, "class": c["cls"]})
+        if key in reported or len(reported) >= 6:
+            continue
+        reported.add(key)
+        run.violation(sig, {
+            "case": {"seeded": {k2: c[k2] for k2 in ("cls", "inner", "wrap", "setup", "ops", "refs", "stochastic")}},
+            "expected": "clean segment %d (%s), output %d: %s  [%s]" % (
+                dev["segment"], "after reset()/all()" if dev["after_reset"] else "from construction + set-up", dev["index"], dev["expected"], dev["what"]),
+            "observed": dev["observed"], "segment_outputs": dev["segment_outputs"], "reference_outputs": dev["reference_outputs"],
+            "observed_events": [pretty_obs(o) for o in out["events"]],
+            "python": seeded_snippet(c) + "\n" + fresh_snippet(c, dev["seed"], dev["cfgs"], len(dev["segment_outputs"]))})
+    bad = run.coq_failing(SEEDED_HEADER, terms, chunk=60)
+    run.cov["traces_validated_against_impl"] += len(terms) - len(bad)
+    run.cov["seeded_model_comparisons"] = len(terms)
+    seen = set()
+    for i in bad:
+        c, out = owners[i]
+        if c["cls"] in seen:
+            continue
+        seen.add(c["cls"])
+        run.violation({"kind": "correspondence", "class": c["cls"], "model": "Pat/Seeded.v"}, {
+            "broken": "correspondence Pat/Seeded.v (%s) vs the implementation: with the recorded draws replayed the model gives other outputs or asks "
+                      "the generator for other draws; the theorems C04_reset_is_fresh_configured_instance / C04_fresh_seeded_is_what_reset_reproduces "
+                      "no longer speak about this code" % ("arp_random" if c["model"][0] == "arp" else "impulse_seq"),
+            "case": {"seeded": {k2: c[k2] for k2 in ("cls", "inner", "wrap", "setup", "ops", "refs", "stochastic")}},
+            "observed": [pretty_obs(o) for o in out["events"]], "epochs": out["epochs"], "coq_term": terms[i],
+            "python": seeded_snippet(c)}, found_input=False)
+    run_model(run, ref_cases)
+    for mc in ref_cases:
+        if mc.verdict == "agree":
+            run.cov["traces_validated_against_impl"] += 1
+        elif mc.verdict == "discard":
+            run.discard("seeded model: " + (mc.status or "?").split(":")[0])
+    for mc in [m for m in ref_cases if m.verdict == "disagree"][:1]:
+        run.violation({"kind": "correspondence", "class": "PRef", "model": "set_pattern"}, {
+            "broken": "correspondence Pat/Step.v vs the implementation after PRef.set_pattern(q): the object does not behave like a newly "
+                      "constructed PRef(q) (C04_reset_after_set_pattern no longer speaks about this code)",
+            "case": {"expr": to_source(mc.expr), "ops": [list(o) for o in mc.ops]}, "observed": mc.obs_pretty(),
+            "model": model_trace(run, mc)}, found_input=False)
+
+
 def replay(run, doc):
     case = doc.get("case", {})
+    if "seeded" in case:
+        c = dict(case["seeded"], record=False)
+        out = run.impl("c04_impl", {"cases": [{k: c[k] for k in ("inner", "wrap", "setup", "ops", "refs", "record")}]})["cases"][0]
+        print(seeded_snippet(c))
+        print("observed:  ", [pretty_obs(o) for o in out["events"]])
+        for r, obs in zip(c["refs"], out["refs"]):
+            print("fresh %r: %s" % ([o[1:] for o in r["setup"]], [pretty_obs(o) for o in obs[1:]]))
+        try:
+            dev = seeded_judge(c, out)
+        except CannotJudge as e:
+            print("replay: cannot judge (%s)" % e)
+            return 2
+        if dev:
+            print("REPLAY-FAILS:", {k: dev[k] for k in ("segment", "index", "expected", "observed", "what")})
+            print("VIOLATION property=C04 replay=(replayed)")
+            return 1
+        print("replay: the property holds on this case")
+        return 0
     if "expr_json" not in case:
         print("replay: no concrete case recorded (%s)" % doc.get("broken", "?"))
         return 1
